@@ -1,15 +1,44 @@
-from checks import mibcompile, oidindex, atomicwrite, searcher, readerlookup, history, oidtree, decls, refs, types, texts, v1v2, pysnmpload, syntax, mutate, dialects, clitools
+from checks import mibcompile, oidindex, atomicwrite, searcher, readerlookup, history, oidtree, decls, refs, types, texts, v1v2, pysnmpload, syntax, mutate, dialects, clitools, realworld
 
 RULE_MC = ('scenario = terminal state of MibCompile.tla exported by TLC (request x lazily chosen answers of every '
            'component x options); non-trivial = at least one component answered with a failure / fresh / borrow; '
            'distinct by (request, environment)')
 REGISTRY = {}
+RULE_RW = ('; plus real-components worlds of MibDump.tla (on-disk state of two modules, alias file, base modules, import shapes and '
+           'spellings, second source directory, destination and borrower directories x options) compiled by the real MibCompiler with '
+           'real reader / parser / generators / searchers / borrower / writer behind recording proxies')
+# quick tier: the real-components slices that exercise the property's own phases (thorough: all of them)
+RW_QUICK = {'C07': ['rw-status'], 'C08': ['rw-graph', 'rw-sources'], 'C09': ['rw-status'], 'C10': ['rw-status'], 'C19': ['rw-sources']}
+
+
+def _split(kw):
+    sl = kw.get('only_slices')
+    if not sl:
+        return None, None
+    return [x for x in sl if not x.startswith('rw-')], [x for x in sl if x.startswith('rw-')]
+
+
+def _mc_run(out, prop, tier, seed, **kw):
+    dbl, rw = _split(kw)
+    if dbl is None or dbl:
+        mibcompile.run(out, prop, tier, seed, **({'only_slices': dbl} if dbl else {}))
+    if dbl is None or rw:
+        realworld.run(out, prop, tier, seed, only_slices=rw or (RW_QUICK[prop] if tier == 'quick' else None))
+
+
+def _mc_replay(path):
+    import json
+    with open(path) as fh:
+        kind = json.load(fh)['replay'].get('kind')
+    return realworld.replay(path) if kind == 'realworld' else mibcompile.replay(path)
+
+
 for _p in ('C07', 'C08', 'C09', 'C10', 'C19'):
-    REGISTRY[_p] = {'run': mibcompile.run, 'replay': mibcompile.replay, 'finish': {'rule': RULE_MC, 'exhaustive': True}}
+    REGISTRY[_p] = {'run': _mc_run, 'replay': _mc_replay, 'finish': {'rule': RULE_MC + RULE_RW, 'exhaustive': True}}
 
 
 def _c10(out, prop, tier, seed, **kw):
-    mibcompile.run(out, prop, tier, seed, **kw)
+    _mc_run(out, prop, tier, seed, **kw)
     if not kw.get('only_slices'):
         searcher.run(out, prop, tier, seed)
 
@@ -18,10 +47,10 @@ def _c10_replay(path):
     import json
     with open(path) as fh:
         kind = json.load(fh)['replay'].get('kind')
-    return searcher.replay(path) if kind == 'searcher' else mibcompile.replay(path)
+    return searcher.replay(path) if kind == 'searcher' else _mc_replay(path)
 
 
-REGISTRY['C10'] = {'run': _c10, 'replay': _c10_replay, 'finish': {'rule': RULE_MC + '; plus every directory configuration of Searcher.tla', 'exhaustive': True}}
+REGISTRY['C10'] = {'run': _c10, 'replay': _c10_replay, 'finish': {'rule': RULE_MC + RULE_RW + '; plus every directory configuration of Searcher.tla', 'exhaustive': True}}
 
 REGISTRY['C18'] = {'run': oidindex.run, 'replay': oidindex.replay, 'finish': {
     'rule': 'history = sequence of genIndex() calls exported from the terminal states of OidIndex.tla (every module summary over an OID universe with digit-sharing arcs); non-trivial = at least two OIDs involved; distinct by history', 'exhaustive': True}}
@@ -34,7 +63,7 @@ REGISTRY['C14'] = {'run': readerlookup.run, 'replay': readerlookup.replay, 'fini
 
 
 def _c19(out, prop, tier, seed, **kw):
-    mibcompile.run(out, prop, tier, seed, **kw)
+    _mc_run(out, prop, tier, seed, **kw)
     if not kw.get('only_slices'):
         readerlookup.run(out, prop, tier, seed)
 
@@ -43,10 +72,10 @@ def _c19_replay(path):
     import json
     with open(path) as fh:
         kind = json.load(fh)['replay'].get('kind')
-    return readerlookup.replay(path) if kind in ('readerlookup', 'url') else mibcompile.replay(path)
+    return readerlookup.replay(path) if kind in ('readerlookup', 'url') else _mc_replay(path)
 
 
-REGISTRY['C19'] = {'run': _c19, 'replay': _c19_replay, 'finish': {'rule': RULE_MC + '; plus the borrower-extension scenarios of ReaderLookup.tla', 'exhaustive': True}}
+REGISTRY['C19'] = {'run': _c19, 'replay': _c19_replay, 'finish': {'rule': RULE_MC + RULE_RW + '; plus the borrower-extension scenarios of ReaderLookup.tla', 'exhaustive': True}}
 
 REGISTRY['C12'] = {'run': history.run, 'replay': history.replay, 'finish': {
     'rule': 'history = sequence of inputs (13 valid/invalid MIB texts) fed to one instance of a kind (parser x2 dialects, symbol-table generator, JSON/pysnmp generator, compiler, same tree twice), enumerated by History.tla; non-trivial = length >= 2; distinct by (kind, history); plus one run per hash seed', 'exhaustive': True}}
